@@ -1,3 +1,304 @@
-"""thorough tier: checker self-validation (filled in later)"""
-def run(prop, ctx, seed, out):
-    return {}
+"""Thorough tier: checker self-validation on the current tree (all static: nothing from /repo is imported or executed).
+
+1. Break synthesis: syntactic single-point breaks (statement deletion, negated condition, comparison / boolean / min-max
+   swaps, off-by-one constants, dropped operand, sibling attribute swap) are applied IN MEMORY to the property's anchor
+   files (properties.jsonl anchors.files); the property's obligations are re-evaluated on each variant.  The kill
+   matrix (variant -> exit 0 / 1 / 2) goes into the evidence.  A surviving variant is an equivalent edit, an edit outside
+   the property's scope, or a gap of the rules: survivors are listed so that they can be triaged; they do not change
+   the verdict on the tree.
+2. Regression of confirmed breaks: every seeded change under /verif/seeded whose meta.json names this property (or lists
+   it under also_breaks) is applied to a scratch copy and must end in a VIOLATION.  A confirmed break that is no longer
+   reported means the checker is broken: the run ends with exit 2 (never a pass).
+
+VERIF_SEED only selects which variants are sampled when a file yields more than the budget.
+"""
+from __future__ import annotations
+
+import ast
+import copy
+import json
+import os
+import random
+import shutil
+import subprocess
+import tempfile
+import time
+from concurrent.futures import ProcessPoolExecutor
+from typing import Dict, List, Tuple
+
+HERE = os.path.dirname(os.path.dirname(os.path.abspath(__file__)))
+
+CMP_SWAP = {ast.Lt: ast.LtE, ast.LtE: ast.Lt, ast.Gt: ast.GtE, ast.GtE: ast.Gt, ast.Eq: ast.NotEq, ast.NotEq: ast.Eq,
+            ast.Is: ast.IsNot, ast.IsNot: ast.Is, ast.In: ast.NotIn, ast.NotIn: ast.In}
+ATTR_SWAP = {'children': 'all_children', 'all_children': 'children', 'predecessors': 'successors', 'successors': 'predecessors',
+             'all_parents': 'all_children', 'start': 'end', 'end': 'start', 'estimate': 'spent', 'spent': 'estimate',
+             'roots': 'tasks', 'tasks': 'roots', 'all_predecessors': 'all_successors', 'all_successors': 'all_predecessors',
+             'append': 'remove', 'units': 'date'}
+NAME_SWAP = {'max': 'min', 'min': 'max', 'any': 'all', 'all': 'any'}
+
+
+def _variants_of(src: str, rel: str) -> List[Tuple[str, str]]:
+    """[(description, mutated source)] - one edit each, only inside function bodies"""
+    tree = ast.parse(src)
+    out: List[Tuple[str, str]] = []
+    funcs = [n for n in ast.walk(tree) if isinstance(n, (ast.FunctionDef, ast.AsyncFunctionDef))]
+    seen_desc = set()
+
+    def emit(desc, mutate):
+        t2 = copy.deepcopy(tree)
+        try:
+            if mutate(t2) is False:
+                return
+            ast.fix_missing_locations(t2)
+            new = ast.unparse(t2)
+            compile(new, rel, 'exec')
+        except Exception:
+            return
+        if desc not in seen_desc:
+            seen_desc.add(desc)
+            out.append((desc, new))
+
+    # index nodes by (lineno, col, type) path so the same node can be found in the copy
+    def locate(t2, key):
+        for n in ast.walk(t2):
+            if (type(n).__name__, getattr(n, 'lineno', None), getattr(n, 'col_offset', None), getattr(n, 'end_col_offset', None)) == key:
+                return n
+        return None
+
+    def key_of(n):
+        return (type(n).__name__, getattr(n, 'lineno', None), getattr(n, 'col_offset', None), getattr(n, 'end_col_offset', None))
+
+    for fn in funcs:
+        for n in ast.walk(fn):
+            k = key_of(n)
+            ln = getattr(n, 'lineno', 0)
+            where = f"{rel}:{ln} {fn.name}"
+            if isinstance(n, (ast.Expr, ast.Assign, ast.AugAssign)) and not (isinstance(n, ast.Expr) and isinstance(n.value, ast.Constant)):
+                def m(t2, k=k):
+                    for parent in ast.walk(t2):
+                        for fld in ('body', 'orelse', 'finalbody'):
+                            body = getattr(parent, fld, None)
+                            if isinstance(body, list):
+                                for i, s in enumerate(body):
+                                    if key_of(s) == k:
+                                        body[i] = ast.Pass()
+                                        return True
+                    return False
+                emit(f"{where}: delete `{ast.unparse(n)[:60]}`", m)
+            if isinstance(n, (ast.If, ast.While)):
+                def m(t2, k=k):
+                    x = locate(t2, k)
+                    if x is None:
+                        return False
+                    x.test = ast.UnaryOp(op=ast.Not(), operand=x.test)
+                emit(f"{where}: negate `{ast.unparse(n.test)[:60]}`", m)
+                if isinstance(n, ast.If) and any(isinstance(s, ast.Raise) for s in n.body):
+                    def m2(t2, k=k):
+                        x = locate(t2, k)
+                        if x is None:
+                            return False
+                        x.test = ast.Constant(value=False)
+                    emit(f"{where}: disable guard `{ast.unparse(n.test)[:60]}`", m2)
+            if isinstance(n, ast.Compare) and len(n.ops) == 1 and type(n.ops[0]) in CMP_SWAP:
+                def m(t2, k=k):
+                    x = locate(t2, k)
+                    if x is None:
+                        return False
+                    x.ops = [CMP_SWAP[type(x.ops[0])]()]
+                emit(f"{where}: `{ast.unparse(n)[:50]}` -> {CMP_SWAP[type(n.ops[0])].__name__}", m)
+            if isinstance(n, ast.BoolOp) and len(n.values) >= 2:
+                def m(t2, k=k):
+                    x = locate(t2, k)
+                    if x is None:
+                        return False
+                    x.op = ast.Or() if isinstance(x.op, ast.And) else ast.And()
+                emit(f"{where}: and<->or in `{ast.unparse(n)[:50]}`", m)
+                for i in range(len(n.values)):
+                    def m(t2, k=k, i=i):
+                        x = locate(t2, k)
+                        if x is None:
+                            return False
+                        del x.values[i]
+                        if len(x.values) == 1:
+                            # replace BoolOp by its remaining operand
+                            for parent in ast.walk(t2):
+                                for f_, v in ast.iter_fields(parent):
+                                    if v is x:
+                                        setattr(parent, f_, x.values[0])
+                                        return True
+                                    if isinstance(v, list) and x in v:
+                                        v[v.index(x)] = x.values[0]
+                                        return True
+                            return False
+                    emit(f"{where}: drop operand {i} of `{ast.unparse(n)[:50]}`", m)
+            if isinstance(n, ast.Call) and isinstance(n.func, ast.Name) and n.func.id in NAME_SWAP:
+                def m(t2, k=k):
+                    x = locate(t2, k)
+                    if x is None:
+                        return False
+                    x.func.id = NAME_SWAP[x.func.id]
+                emit(f"{where}: {n.func.id}->{NAME_SWAP[n.func.id]} in `{ast.unparse(n)[:50]}`", m)
+                if n.func.id in ('max', 'min') and len(n.args) >= 2:
+                    for i in range(len(n.args)):
+                        def m(t2, k=k, i=i):
+                            x = locate(t2, k)
+                            if x is None:
+                                return False
+                            del x.args[i]
+                        emit(f"{where}: drop argument {i} of `{ast.unparse(n)[:50]}`", m)
+            if isinstance(n, ast.Constant) and isinstance(n.value, int) and not isinstance(n.value, bool) and abs(n.value) <= 24:
+                def m(t2, k=k):
+                    x = locate(t2, k)
+                    if x is None:
+                        return False
+                    x.value = x.value + 1
+                emit(f"{where}: constant {n.value} -> {n.value + 1}", m)
+            if isinstance(n, ast.Attribute) and n.attr in ATTR_SWAP and isinstance(n.ctx, ast.Load):
+                def m(t2, k=k):
+                    x = locate(t2, k)
+                    if x is None:
+                        return False
+                    x.attr = ATTR_SWAP[x.attr]
+                emit(f"{where}: .{n.attr} -> .{ATTR_SWAP[n.attr]} in `{ast.unparse(n)[:40]}`", m)
+            if isinstance(n, ast.BinOp) and isinstance(n.op, (ast.Add, ast.Sub)):
+                def m(t2, k=k):
+                    x = locate(t2, k)
+                    if x is None:
+                        return False
+                    x.op = ast.Sub() if isinstance(x.op, ast.Add) else ast.Add()
+                emit(f"{where}: +<->- in `{ast.unparse(n)[:50]}`", m)
+    return out
+
+
+def _eval_variant(args):
+    prop, rel, desc, new_src = args
+    import sys
+    sys.path.insert(0, HERE)
+    import check
+    try:
+        code, ctx = check.run_property(prop, 'quick', 0, overrides={rel: new_src}, quiet=True)
+        hit = []
+        if code == 1:
+            hit = [o.id for o in ctx.obligations if o.verdict == 'REFUTED'][:3]
+        return desc, code, hit
+    except Exception as e:       # a crash of the checker on a variant is an undecided variant
+        return desc, 2, [f"crash: {type(e).__name__}: {e}"[:80]]
+
+
+def _seeded_for(prop: str) -> List[str]:
+    d = os.path.join(HERE, 'seeded')
+    out = []
+    if not os.path.isdir(d):
+        return out
+    for sid in sorted(os.listdir(d)):
+        mp = os.path.join(d, sid, 'meta.json')
+        if not os.path.exists(mp):
+            continue
+        try:
+            meta = json.load(open(mp))
+        except Exception:
+            continue
+        if meta.get('expected') == 'exit0':
+            continue
+        if meta.get('property') == prop or prop in meta.get('also_breaks', []):
+            if meta.get('static_miss_ok', {}).get(prop) or (meta.get('static_miss') and meta.get('property') == prop):
+                continue
+            out.append(sid)
+    return out
+
+
+def _eval_seeded(args):
+    prop, sid, repo = args
+    tmp = tempfile.mkdtemp(prefix='selfval_')
+    try:
+        shutil.copytree(os.path.join(repo, 'src'), os.path.join(tmp, 'src'))
+        subprocess.run(['git', 'init', '-q'], cwd=tmp, check=True)
+        r = subprocess.run(['git', 'apply', os.path.join(HERE, 'seeded', sid, 'patch.diff')], cwd=tmp, capture_output=True, text=True)
+        if r.returncode != 0:
+            return sid, 'patch-does-not-apply', []
+        import sys
+        sys.path.insert(0, HERE)
+        import check
+        from sa.model import Program
+        overrides = {}
+        for dirpath, _, files in os.walk(os.path.join(tmp, 'src')):
+            for fn in files:
+                if fn.endswith(('.py', '.html')):
+                    p = os.path.join(dirpath, fn)
+                    overrides[os.path.relpath(p, tmp)] = open(p, encoding='utf-8').read()
+        code, ctx = check.run_property(prop, 'quick', 0, overrides=overrides, quiet=True)
+        hit = [o.id for o in ctx.obligations if o.verdict == 'REFUTED'][:3]
+        return sid, code, hit
+    except Exception as e:
+        return sid, f"crash {type(e).__name__}: {e}"[:100], []
+    finally:
+        shutil.rmtree(tmp, ignore_errors=True)
+
+
+def run(prop: str, ctx, seed: int, out) -> dict:
+    t0 = time.time()
+    budget = int(os.environ.get('VERIF_VARIANTS', '480'))
+    props = {}
+    for l in open(os.path.join(HERE, 'properties.jsonl')):
+        p = json.loads(l)
+        props[p['id']] = p
+    files = props[prop]['anchors']['files']
+    repo = ctx.prog.repo
+    jobs = []
+    per_file = {}
+    for rel in files:
+        m = next((m for m in ctx.prog.modules.values() if m.rel == rel), None)
+        if m is None:
+            continue
+        # the un-mangled original text is needed: read it again from disk
+        with open(os.path.join(repo, rel), encoding='utf-8') as fh:
+            src = fh.read()
+        vs = _variants_of(src, rel)
+        per_file[rel] = len(vs)
+        jobs += [(prop, rel, d, s) for d, s in vs]
+    total_generated = len(jobs)
+    rng = random.Random(seed)
+    if len(jobs) > budget:
+        jobs = rng.sample(jobs, budget)
+    jobs.sort(key=lambda j: j[2])
+    results = []
+    workers = min(16, os.cpu_count() or 4)
+    with ProcessPoolExecutor(max_workers=workers) as ex:
+        for r in ex.map(_eval_variant, jobs, chunksize=4):
+            results.append(r)
+    killed = [r for r in results if r[1] == 1]
+    undec = [r for r in results if r[1] == 2]
+    surv = [r for r in results if r[1] == 0]
+    by_ob: Dict[str, int] = {}
+    for _, _, hit in killed:
+        for h in hit[:1]:
+            by_ob[h] = by_ob.get(h, 0) + 1
+    # confirmed breaks
+    sids = _seeded_for(prop)
+    sres = []
+    with ProcessPoolExecutor(max_workers=workers) as ex:
+        for r in ex.map(_eval_seeded, [(prop, s, repo) for s in sids]):
+            sres.append(r)
+    lost = [r for r in sres if r[1] != 1 and r[1] != 'patch-does-not-apply']
+    out(f"  self-validation: {len(results)} syntactic variants of {', '.join(files)} ({total_generated} generated): "
+        f"{len(killed)} -> VIOLATION, {len(undec)} -> undecided, {len(surv)} survive; confirmed breaks re-detected: "
+        f"{sum(1 for r in sres if r[1] == 1)}/{len([r for r in sres if r[1] != 'patch-does-not-apply'])}; {time.time() - t0:.1f}s")
+    for r in lost:
+        out(f"  self-validation: confirmed break {r[0]} is NOT reported any more (result {r[1]})")
+    extra = {
+        'selfval': {
+            'variants_generated': total_generated, 'variants_evaluated': len(results), 'per_file': per_file,
+            'killed': len(killed), 'undecided': len(undec), 'survived': len(surv),
+            'killed_by_first_obligation': by_ob,
+            'survivors': [r[0] for r in surv][:400],
+            'undecided_variants': [f"{r[0]} ({'; '.join(r[2])})" for r in undec][:60],
+            'confirmed_breaks': [{'id': r[0], 'result': r[1], 'obligations': r[2]} for r in sres],
+            'seed': seed, 'budget': budget,
+        },
+        'evaluations': sum(len(o.sites) for o in ctx.obligations) + len(results) + len(sres),
+        'rule': 'evaluations = program sites decided by the obligations on the tree + syntactic break variants of the anchor files '
+                're-analysed in memory + confirmed seeded breaks re-analysed; distinct_nontrivial = obligations with a matched site',
+    }
+    if lost:
+        extra['selfval_broken'] = 'confirmed break(s) no longer detected: ' + ', '.join(r[0] for r in lost)
+    return extra
